@@ -6,6 +6,7 @@ import QR.Props.C03
 import QR.Props.C09
 import QR.Proofs.SourceTieC05
 import QR.Proofs.Pinned
+import QR.Proofs.SourceTieC05b
 /-
 C05 - function patterns, geometry and data placement of every symbol.
 Finite part: alignment table = Annex E closed form, mask functions = ISO Table 10.
@@ -232,5 +233,18 @@ theorem C05_source_structure :
 /-- the Python functions this property's model mirrors have, in /repo's current working tree, exactly the normalised
     ASTs the model was written and validated against (fingerprints regenerated by T1 on every run) -/
 theorem C05_source_fingerprints : QR.Gen.fp_C05 = QR.Pinned.fp_C05 := by decide
+
+/-- the colour tests, skip tests and loop ranges of the finder, alignment and timing patterns as they stand in the source
+    are the ones whose painting `blank_spec` is proved for -/
+theorem C05_source_patterns :
+    (∀ r c : Int, Gen.Code.probe_dark r c = QR.probeDark r c) ∧ Gen.Code.probe_range = ((-1, 8), (-1, 8)) ∧
+    (∀ r' c' : Nat, r' < 5 → c' < 5 →
+      Gen.Code.align_dark ((r' : Int) - 2) ((c' : Int) - 2) = decide (r' = 0 ∨ r' = 4 ∨ c' = 0 ∨ c' = 4 ∨ (r' = 2 ∧ c' = 2))) ∧
+    Gen.Code.align_range = ((-2, 3), (-2, 3)) ∧ Gen.Code.align_skip_test = "self.modules[row][col] is not None" ∧
+    (∀ i, Gen.Code.timing_dark_0 i = decide (i % 2 = 0)) ∧ (∀ i, Gen.Code.timing_dark_1 i = decide (i % 2 = 0)) ∧
+    (∀ n, Gen.Code.timing_range_0 n = (8, n - 8)) ∧ (∀ n, Gen.Code.timing_range_1 n = (8, n - 8)) :=
+  ⟨QR.SourceTie.probe_dark_eq, QR.SourceTie.probe_range_eq, QR.SourceTie.align_dark_eq, QR.SourceTie.align_range_eq.1,
+   QR.SourceTie.align_range_eq.2, QR.SourceTie.timing_eq.1, QR.SourceTie.timing_eq.2.1, QR.SourceTie.timing_eq.2.2.1,
+   QR.SourceTie.timing_eq.2.2.2.1⟩
 
 end QR.Props
